@@ -34,13 +34,14 @@ class Thread:
 
 class FD:
     """kind: reg | sock | pipe | anon | chr | dir | rel"""
-    __slots__ = ("target", "pos", "flags", "kind")
+    __slots__ = ("target", "pos", "flags", "kind", "extra")
 
-    def __init__(self, target, kind="reg", pos=0, flags=0o100000):
+    def __init__(self, target, kind="reg", pos=0, flags=0o100000, extra=b""):
         self.target = target
         self.kind = kind
         self.pos = pos
         self.flags = flags
+        self.extra = extra        # further fdinfo lines (lock:, eventfd-count:, inotify ..., tfd: ...)
 
 
 SMAPS_KEYS = ["Size", "KernelPageSize", "MMUPageSize", "Rss", "Pss", "Pss_Dirty",
@@ -656,7 +657,7 @@ class World:
             if fd not in p.fds or p.zombie:
                 raise oserr(errno.ENOENT, path)   # kernel: read of closed fd's fdinfo -> ENOENT
             f = p.fds[fd]
-            return b"pos:\t%d\nflags:\t0%o\nmnt_id:\t29\nino:\t%d\n" % (f.pos, f.flags, 1000 + fd)
+            return b"pos:\t%d\nflags:\t0%o\nmnt_id:\t29\nino:\t%d\n" % (f.pos, f.flags, 1000 + fd) + f.extra
         if comps[0] == "task":
             t = int(comps[1])
             th = [x for x in p.thread_list() if x.tid == t]
